@@ -10,7 +10,7 @@ fn small() -> i64 {
 }
 
 /// Orders 0 and 1 are exactly 1 and 0 for ANY non-empty f64 contents (NaN / inf included).
-//@ prop=C07,C18 tier=quick mem=3 timeout=1200 inst="central_moment / central_moments on Array1<f64> len 3 and ArrayView2<f64> 2x2 F-order" bounds="all bit patterns; orders 0 and 1; unwind 8"
+//@ prop=C07,C18:thorough tier=quick mem=3 timeout=1200 inst="central_moment / central_moments on Array1<f64> len 3 and ArrayView2<f64> 2x2 F-order" bounds="all bit patterns; orders 0 and 1; unwind 8"
 #[kani::proof]
 #[kani::unwind(8)]
 fn c07_orders_0_1_any_f64() {
@@ -138,13 +138,13 @@ fn cmom_q<const N: usize>(p: u16) {
     kani::cover!(acc[pu] != 0, "W: non-zero moment");
 }
 
-//@ prop=C07,C18 tier=quick mem=4 timeout=2400 uses=Q inst="central_moment(3) / central_moments(3) on Array1<Q> len 3" bounds="x in 0..=3; unwind 18"
+//@ prop=C07,C18:thorough tier=quick mem=4 timeout=2400 uses=Q inst="central_moment(3) / central_moments(3) on Array1<Q> len 3" bounds="x in 0..=3; unwind 18"
 #[kani::proof]
 #[kani::unwind(18)]
 fn c07_cmom_q_n3_p3() {
     cmom_q::<3>(3);
 }
-//@ prop=C07,C18 tier=quick mem=4 timeout=2400 uses=Q inst="central_moment(2) / central_moments(2) on Array1<Q> len 3" bounds="x in 0..=3; unwind 18"
+//@ prop=C07,C18:thorough tier=quick mem=4 timeout=2400 uses=Q inst="central_moment(2) / central_moments(2) on Array1<Q> len 3" bounds="x in 0..=3; unwind 18"
 #[kani::proof]
 #[kani::unwind(18)]
 fn c07_cmom_q_n3_p2() {
